@@ -1,2 +1,3 @@
 import Neutrino.Props.C11
+import Neutrino.Props.C15
 import Neutrino.Props.C16
